@@ -25,8 +25,8 @@ CFG = {
             "history did not end in a panic (distinct histories counted).",
     "tie": {"StateDB mutators, journal undo, Snapshot/RevertToSnapshot, Finalise, IntermediateRoot, Commit, Copy, Reset, New": "corr (Go vs Model.State, getters + dirty set + callback flags + journal length after every action)",
             "journal append / raw setter call-site inventory of core/state": "gen (go/ast dump -> Aqv.Gen.StateJournal, theorem journalled_mutators_as_modelled)",
-            "state root": "corr as content classes (equal content <=> equal root over the whole history) + direct judgement against a plain trie.Trie; mptRoot itself is C10"},
-    "assumptions": ["account and storage tries are abstracted to total maps; 'the trie commits to exactly its content' is property C10 (mptRoot is a parameter of the C09 theorems)",
+            "state root": "corr, byte-exact: at every IntermediateRoot/Commit/net-effect replay the driver recomputes stateRootSpec (C10 mptRoot + C11 account RLP + Lean Keccak-256) from the model content and compares it with the 32-byte root Go returns; plus content classes (equal content <=> equal root) and a direct Go judgement against a plain trie.Trie"},
+    "assumptions": ["account and storage tries are abstracted to total maps in Model.State; the concrete root is stateRootSpec (Model.StateRoot) and root_eq_spec_state composes C09 with C10 root_eq_spec_run for every hash function that is injective on the finitely many secure-trie keys involved (explicit hypothesis KeysOK)",
                     "code is identified with its Keccak hash (collision freedom on the codes involved); read caches (stateObjects fill on read, cachedStorage, lazily loaded code) are not modelled and are unobservable through the getters",
                     "a StateDB is not used after Commit without Reset/New (every caller in /repo resets; commit_reuse_loses_write_witness shows what happens otherwise)",
                     "independence of a Copy from the original is a statement about aliasing in the Go heap: judged on the real code by the harness (J4), trivial in the value-semantics model",
@@ -39,12 +39,13 @@ META = {
     "text": "Theorems over the Lean model of core/state (all histories, no bounds): revert_exact (any nesting of snapshots and any interleaving of the "
             "11 journalled mutators; every getter, refund, logs, preimages, journal and revision stack restored) and its reachability version, "
             "journal_complete, finalise_perm_invariant (Go map order), root_content_only / root_history_independent (after IntermediateRoot/Commit "
-            "the trie holds exactly the content the getters report), reopen_reads_back, copy_independent, and the _partial form of "
+            "the trie holds exactly the content the getters report), root_eq_spec_state (the real tries hash to the specification's Merkle-Patricia root of the reported content: C10 mptRoot over RLP-encoded "
+            "accounts, any hash function injective on the keys), reopen_reads_back, copy_independent, and the _partial form of "
             "revert_exact_through_finalise with the excluded set explicit. Four defects of the code as written are proved as concrete witness "
             "theorems (F1 reverted write leaves the account dirty, F2 reverted touch disarms dirty tracking and loses later writes, F3 mixed "
             "delete-empty flags re-insert a deleted account, F4 the deliberate RIPEMD exception) and are re-found on the real code on every run as "
             "known findings. Every run re-proves the theorems, regenerates the journal inventory from the source, and replays >2000 histories "
             "(>60 000 actions) on the real StateDB and the compiled model with identical observations required after every action.",
     "note": GEN + " The full statement revert_exact_through_finalise is FALSE for the code as written (witness theorems); the partial theorem names the excluded histories. "
-            "root_content_only is relative to C10 (mptRoot abstract). The independent Merkle root is recomputed on the Go side with the plain trie package, not in Lean.",
+            "root_eq_spec_state states the concrete root (C10 mptRoot over C11-encoded accounts) under an explicit key-hash injectivity hypothesis; the driver recomputes that root with Lean Keccak on every root action.",
 }
